@@ -308,6 +308,18 @@ def ifs_on(root, cond):
     return out
 
 
+def returns_under(fi):
+    """{canonical text of a returned value: [set of normalised guard facts, one per return site]} - what a
+    function returns under which tests, whatever the shape (if/else, early return, swapped arms)."""
+    from .canon import canon
+
+    fa = FA(fi)
+    out = {}
+    for nid, r in fa.returns():
+        out.setdefault(canon(r.value) if r.value is not None else None, []).append(set(nfacts(guard_facts(fa, nid))))
+    return out
+
+
 def literal_tests(facts, is_selector):
     """(literals the selector is known to equal, literals it is known to differ from) under `facts`;
     understands ==, !=, in (...), not in (...) in either polarity."""
